@@ -12,6 +12,7 @@ import MptModel.Spec.Reply
 import MptModel.Lemmas.ReplyId
 import MptModel.Lemmas.ReplyCtx
 import MptModel.Lemmas.ReplyStream
+import MptModel.Lemmas.ReplyRequester
 namespace Mpt.C12
 open Mpt Mpt.Reply Mpt.ReplySpec
 
@@ -188,5 +189,62 @@ theorem stream_at_most_once (s : StreamIn.SIn) (hs : s.rdlen = 0) (data : List B
     rw [List.take_append_of_le_length (by rw [StreamIn.mark_length, hlen]; exact Nat.le_refl _)]
     apply List.take_of_length_le
     rw [StreamIn.mark_length, hlen]; exact Nat.le_refl _
+
+/- ---------------------------------------------------------------- requester side (io::stream, command_reserve) -/
+
+/-- **to the right requester**: `await` hands a new request an id that is legal for the header width
+    and that no outstanding request uses; ids in use stay pairwise distinct (so a reply id names at
+    most one waiting handler) -/
+theorem request_id_fresh (arr : Option (List Requester.Slot)) (idlen tag : Nat) (a : List Requester.Slot) (i : Nat)
+    (hn : ∀ es, arr = some es → (Requester.activeIds es).Nodup)
+    (h : Requester.reserve arr idlen tag = some (a, i)) :
+    1 ≤ i ∧ i ≤ Requester.idMax idlen ∧ (∀ es, arr = some es → i ∉ Requester.activeIds es) ∧
+    (Requester.activeIds a).Nodup ∧ i ∈ Requester.activeIds a :=
+  Requester.reserve_fresh arr idlen tag a i hn h
+example : Requester.reserve (some [⟨1, some 7⟩, ⟨2, none⟩, ⟨3, some 9⟩]) 2 5 = some ([⟨1, some 7⟩, ⟨3, some 9⟩, ⟨4, some 5⟩], 4) := by
+  decide
+
+/-- **at most once, requester side**: when `io::stream` delivers a reply to the handler waiting for
+    its id, that handler is the one registered under exactly this id, and afterwards nobody waits
+    for the id any more (a second reply with the same id reaches no reply handler) -/
+theorem reply_delivered_once (s : Requester.St) (m : List Byte) (t : Nat) (p : Option (List Byte))
+    (hn : (Requester.activeIds (s.arr.getD [])).Nodup)
+    (h : (Requester.process s m).2 = some ⟨some t, p⟩) :
+    ∃ rid, Requester.findActive (s.arr.getD []) rid = some t ∧
+      rid ∉ Requester.activeIds ((Requester.process s m).1.arr.getD []) := by
+  unfold Requester.process at h ⊢
+  simp only [] at h ⊢
+  by_cases h0 : s.idlen = 0
+  · simp [h0] at h
+  · by_cases hm : ((m.take s.idlen).headD 0).toNat ≥ 128
+    · simp only [h0, hm, if_true, if_false] at h ⊢
+      cases hb : MsgId.buf2id (Reply.unmark (m.take s.idlen)) with
+      | ok pr =>
+        obtain ⟨rid, u⟩ := pr
+        try rw [hb] at h
+        try rw [hb]
+        simp only [] at h ⊢
+        cases hf : Requester.findActive (s.arr.getD []) rid with
+        | none => (try rw [hf] at h); simp at h
+        | some t' =>
+          try rw [hf] at h
+          try rw [hf]
+          simp only [Option.some.injEq, Requester.Call.mk.injEq] at h ⊢
+          obtain ⟨ht, _⟩ := h
+          cases ht
+          refine ⟨rid, hf, ?_⟩
+          cases ha : s.arr with
+          | none => simp [Requester.activeIds, Requester.active]
+          | some es =>
+            have hn' : (Requester.activeIds es).Nodup := by simpa [ha] using hn
+            simp only [Option.map_some, Option.getD_some]
+            rw [Requester.deactivate_active es rid hn']
+            simp
+      | err e => (try rw [hb] at h); simp at h
+      | null => (try rw [hb] at h); simp at h
+      | oob => (try rw [hb] at h); simp at h
+      | fault => (try rw [hb] at h); simp at h
+    · rw [if_neg h0, if_neg hm] at h
+      simp at h
 
 end Mpt.C12
